@@ -55,7 +55,9 @@ Spec == Init /\ [][Next]_vars
 Bound == TLCGet("level") <= Depth + 1
 
 \* "whatever a setter stores is what the matching getter shows, whatever was there before"
-SetThenGet ==
+\* (an action constraint, evaluated on every transition; Assert makes a failure an error instead of a
+\* silently discarded transition)
+SetThenGetHolds ==
   LET c == h'[Len(h')] IN
   CASE c.f = "set_method" -> GetMethod(pkt') = c.a.name
     [] c.f = "set_status" -> GetStatus(pkt') = c.a.name
@@ -64,6 +66,7 @@ SetThenGet ==
     [] c.f = "set_observe_flag" -> GetObserveFlag(pkt') = c.a.name
     [] c.f = "set_content_format" -> GetContentFormat(pkt') = c.a.name
     [] OTHER -> TRUE
+SetThenGet == Assert(SetThenGetHolds, << "setter not visible through its getter", h'[Len(h')] >>)
 
 \* the raw state and the encoded bytes agree with the views
 RawAgrees ==
